@@ -721,11 +721,11 @@ def fixed_sequences():
     kwn = list(KEYWORD_NAMES)
     ftypes = list(FALSY)
     Kf = RecordDescriptor("probe/kwfalsy", [(t, kwn[i] if i % 2 == 0 else "n%d" % i) for i, t in enumerate(ftypes)]
-                          + [("string[]", "global"), ("bytes[]", "nl"), ("digest", "lambda"), ("varint[]", "with")])
+                          + [("string[]", "as"), ("bytes[]", "nl"), ("digest", "lambda"), ("varint[]", "with")])
     names = [n for _, n in Kf.get_field_tuples()]
     for variant in range(2):
         kwv = {n: FALSY[t][variant % len(FALSY[t])] for (t, n) in Kf.get_field_tuples() if t in FALSY}
-        kwv.update({"global": [], "nl": [], "with": [0]})
+        kwv.update({"as": [], "nl": [], "with": [0]})
         out.append(("keyword-falsy-%d" % variant, [build_record(Kf, dict(kwv, _generated=T0, _source="", _classification="")),
                                                     build_record(Kf, dict(_generated=T0)),
                                                     build_record(Kf, dict({n: v for n, v in kwv.items() if names.index(n) % 3 == 0}, _generated=T0))]))
@@ -774,6 +774,101 @@ def probe_nan_payload(ctx, tmpd, kf):
         else:
             ctx.violation("a NaN with payload 0x7ff8000000000001 reads back as %#x" % recgen.float_bits(back[0].f),
                           dict(kind="sequence", cls="non-finite-float", probe="nan-payload"))
+
+
+# ------------------------------------------------------------------------------------------------
+# fresh-interpreter smoke: the same write + read in a child process that has imported nothing but flow.record (an
+# import-order dependence -- e.g. pack_obj naming fieldtypes.net.* before anything loaded that submodule -- is invisible
+# in this process, where everything is imported already).  One source, executed in the child and in-process.
+
+SMOKE_SRC = r'''
+import sys
+from flow.record import RecordDescriptor, RecordReader, RecordWriter      # nothing else of flow.record is imported
+
+
+def smoke(typename, path):
+    import datetime as dt
+    md5, sha1 = "d41d8cd98f00b204e9800998ecf8427e", "da39a3ee5e6b4b0d3255bfef95601890afd80709"
+    ts = dt.datetime(2023, 5, 6, 7, 8, 9, 123456, tzinfo=dt.timezone.utc)
+    table = {
+        "string": ("a\udcff\u20ac", ["", "x"]), "wstring": ("w", ["w"]), "uri": ("http://example.com/a?b=c", ["ftp://h/x"]),
+        "varint": (2 ** 70, [0, -1]), "filesize": (1024, [0]), "unix_file_mode": (0o644, [0o755]), "uint16": (65535, [0, 1]),
+        "uint32": (2 ** 32 - 1, [7]), "boolean": (True, [False, True]), "float": (1.5, [0.0, -2.25]), "bytes": (b"\x00\xff", [b"", b"ab"]),
+        "datetime": (dt.datetime(1999, 12, 31, 23, 59, 59, tzinfo=dt.timezone(dt.timedelta(hours=2))), [ts]), "path": ("/tmp/x", ["", "a/b"]),
+        "digest": ((md5, sha1, None), [(md5, None, None)]), "net.ipaddress": ("::1", ["1.2.3.4"]), "net.ipnetwork": ("10.0.0.0/8", ["::/0"]),
+        "net.IPAddress": ("0.0.0.1", ["::ffff:1.2.3.4"]), "net.IPNetwork": ("2001:db8::/32", ["192.168.1.1/32"]),
+    }
+    types = list(table) if typename == "*" else [typename]
+    fields, kw = [], {}
+    for i, t in enumerate(types):
+        fields += [(t, "v%d" % i), (t + "[]", "l%d" % i)]
+        kw["v%d" % i], kw["l%d" % i] = table[t]
+    D = RecordDescriptor("smoke/t", fields)
+    recs = [D(_generated=ts, _source="s", **kw), D(_generated=ts)]
+    out = {}
+    for on in (True, False):
+        uri = "jsonfile://" + path + ("" if on else "?descriptors=false")
+        w = RecordWriter(uri)
+        for r in recs:
+            w.write(r)
+        w.close()
+        with open(path) as fh:
+            text = fh.read()
+        rd = RecordReader("jsonfile://" + path)
+        back = list(rd)
+        rd.close()
+        from vf import recgen      # observation only, after the write and the read
+        out["text_%s" % on] = text
+        out["obs_%s" % on] = [repr(recgen.canon(recgen.obs_record(x))) for x in back]
+    return out
+
+
+if __name__ == "__main__":
+    import json
+    try:
+        res = smoke(sys.argv[1], sys.argv[2])
+    except BaseException as e:
+        import traceback
+        res = {"error": "%s: %s" % (type(e).__name__, e), "traceback": traceback.format_exc()[-1500:]}
+    print("@@SMOKE" + json.dumps(res))
+'''
+
+
+def smoke_fresh_processes(ctx, tmpd):
+    """every supported type on its own (and all together) in a fresh interpreter; result = the in-process result"""
+    import subprocess
+    script = os.path.join(tmpd, "smoke_child.py")
+    with open(script, "w") as fh:
+        fh.write(SMOKE_SRC)
+    ns = {"__name__": "smoke_inproc"}
+    exec(compile(SMOKE_SRC, "<smoke>", "exec"), ns)
+    procs = []
+    for i, t in enumerate(SCALARS + ["*"]):
+        path = os.path.join(tmpd, "smoke_%d.json" % i)
+        pr = subprocess.Popen([core.PY, script, t, path], env=core.env_for_repo(), cwd=tmpd, stdout=subprocess.PIPE,
+                              stderr=subprocess.STDOUT, text=True, errors="replace")
+        procs.append((t, path, pr))
+    for t, path, pr in procs:
+        try:
+            outp, _ = pr.communicate(timeout=120)
+        except subprocess.TimeoutExpired:
+            pr.kill()
+            outp = ""
+        ctx.count_case(("fresh-process", t), nontrivial=False)
+        lines = [ln for ln in outp.splitlines() if ln.startswith("@@SMOKE")]
+        child = json.loads(lines[-1][7:]) if lines else {"error": "no result from the child interpreter", "traceback": outp[-1500:]}
+        here = ns["smoke"](t, path + ".here")
+        here = {k: (v.replace(path + ".here", path) if isinstance(v, str) else v) for k, v in here.items()}
+        if "error" in child:
+            raise Failure("fresh-process", "in a fresh interpreter that imported only flow.record, writing / reading a record with a %s field "
+                          "through jsonfile:// raises %s (the same works in this process)" % (
+                              "field of every type" if t == "*" else t, child["error"]),
+                          dict(fieldtype=t, traceback=child.get("traceback")))
+        for k in sorted(here):
+            if child.get(k) != here[k]:
+                raise Failure("fresh-process", "in a fresh interpreter that imported only flow.record, a record with a %s field gives a different "
+                              "%s than in this process" % (t, "text" if k.startswith("text") else "read-back"),
+                              dict(fieldtype=t, which=k, child=str(child.get(k))[:600], here=str(here[k])[:600]))
 
 
 def probe_notes(ctx, tmpd):
@@ -829,6 +924,11 @@ def search(ctx, reason):
         except Exception as e:  # noqa
             report_failure(ctx, Failure("exception", "%s; failing input: %s: %s" % (reason, type(e).__name__, str(e)[:200])), tag, recs, info)
             return True
+    try:
+        smoke_fresh_processes(ctx, tmpd)
+    except Failure as e:
+        ctx.violation("%s; failing input: %s" % (reason, e.what), dict(kind="sequence", cls=e.cls, probe="fresh-process", detail=e.detail))
+        return True
     return False
 
 
@@ -836,11 +936,13 @@ def run(ctx):
     kf = core.known_for("C14")
     ctx.coverage["rule"] = (
         "a case = one write history (1..7 records over 1..5 descriptors drawn from the JSON-supported scalar and list "
-        "types, incl. descriptors sharing a name or the whole identifier) x descriptors on/off, evaluated by the "
+        "types, incl. descriptors sharing a name or the whole identifier and descriptors with keyword-named fields "
+        "(generic constructor); records are constructed positionally, falsy-but-set values drawn often) x descriptors on/off, evaluated by the "
         "implementation AND by the model inside Coq (document trees, reader); distinct = distinct (descriptor field "
         "types, value classes per field, descriptors on/off); non-trivial = the history holds at least one set "
         "(non-None) value. Variants (RecordWriter by extension / jsonfile:// URI, indent=2) are compared with the "
-        "base text / trees and counted as evaluations only")
+        "base text / trees and counted as evaluations only; plus a fresh-interpreter smoke (child process importing only "
+        "flow.record, one per supported type and one with all types: text and read-back = in-process result)")
     ok = core.standard_proof_stage(ctx, ["props/C14.vo"], "C14", THEOREMS, search_fn=search, gens=["gen_json"])
     ctx.assumptions += [
         "json.dumps / json.loads (text level) are outside the model: the model works on document TREES; on every case "
@@ -865,7 +967,7 @@ def run(ctx):
     if not ok:
         return
     tmpd = tempfile.mkdtemp(prefix="c14.", dir=str(ctx.work))
-    n_random = 140 if ctx.tier == "quick" else 1200
+    n_random = 110 if ctx.tier == "quick" else 1200
     coq_cases, metas = [], []
     seqs = {}
     for tag, recs, info in sequences_for(ctx, n_random):
@@ -889,6 +991,11 @@ def run(ctx):
     probe_split_pair(ctx, tmpd, kf)
     probe_nan_payload(ctx, tmpd, kf)
     probe_notes(ctx, tmpd)
+    try:
+        smoke_fresh_processes(ctx, tmpd)
+    except Failure as e:
+        ctx.violation(e.what, dict(kind="sequence", cls=e.cls, probe="fresh-process", detail=e.detail))
+        return
     # model = implementation, evaluated inside Coq
     failing, err = core.eval_bool_cases(ctx, HEADER, coq_cases, shard_size=15, name="c14")
     if err:
@@ -935,6 +1042,14 @@ def replay(obj):
         if obj.get("probe") == "split-pair":
             probe_split_pair(c, tmpd, [])
             return 1 if c.bad else 0
+        if obj.get("probe") == "fresh-process":
+            try:
+                smoke_fresh_processes(c, tmpd)
+            except Failure as e:
+                print("replay: still fails: %s" % e.what)
+                return 1
+            print("replay: the case passes now")
+            return 0
         if obj.get("probe") == "nan-payload":
             probe_nan_payload(c, tmpd, [])
             return 1 if c.bad else 0
